@@ -4,6 +4,7 @@ package main
 
 import (
 	"fmt"
+	"os"
 	"go/constant"
 	"go/token"
 	"go/types"
@@ -359,6 +360,14 @@ func (x *Exec) finish(s *State) {
 		sc.declare(sym, x.decls[sym])
 	}
 	x.declsMu.Unlock()
+	if d := os.Getenv("GOWP_DUMP"); d != "" {
+		var decls []string
+		for _, sym := range sc.order {
+			decls = append(decls, sc.decls[sym])
+		}
+		os.MkdirAll(d, 0o755)
+		os.WriteFile(fmt.Sprintf("%s/%s_p%d.smt2", d, sanitize(funcShort2(x)), s.npath), []byte(sc.render(decls, -1, true)), 0o644)
+	}
 	x.wg.Add(1)
 	go func() {
 		defer x.wg.Done()
@@ -657,7 +666,7 @@ func (x *Exec) loopEnter(s *State, li *loopInfo, pred *ssa.BasicBlock) {
 	// 1. invariants hold on entry
 	for i, inv := range spec.Invariants {
 		env := x.envFor(s, li)
-		t := env.evalBool(inv.Expr)
+		t := env.checkTerm(inv)
 		o := x.ob("inv-init", fmt.Sprintf("loop%d#%s", li.ordinal, clauseName(inv, i)), inv.Src, nil)
 		s.check(o, t)
 	}
@@ -704,6 +713,7 @@ func (x *Exec) loopEnter(s *State, li *loopInfo, pred *ssa.BasicBlock) {
 	na := x.fresh("alloc", sInt)
 	s.assume(app("<=", s.alloc, na))
 	s.alloc = na
+	s.sealHavoc()
 	for _, p := range phis {
 		v := x.freshValue("phi_"+p.Comment, p.Type())
 		s.env[p] = v
@@ -721,7 +731,7 @@ func (x *Exec) loopEnter(s *State, li *loopInfo, pred *ssa.BasicBlock) {
 	// 3. assume invariants
 	for _, inv := range spec.Invariants {
 		env := x.envFor(s, li)
-		s.assume(env.evalBool(inv.Expr))
+		env.assumeClause(inv)
 	}
 	if spec.Decreases != nil {
 		env := x.envFor(s, li)
@@ -769,9 +779,13 @@ func (x *Exec) loopBack(s *State, li *loopInfo, pred *ssa.BasicBlock) {
 	}
 	for i, inv := range lc.spec.Invariants {
 		env := x.envFor(s, li)
-		t := env.evalBool(inv.Expr)
+		t := env.checkTerm(inv)
 		o := x.ob("inv-pres", fmt.Sprintf("loop%d#%s", li.ordinal, clauseName(inv, i)), inv.Src, nil)
 		s.check(o, t)
+	}
+	if os.Getenv("GOWP_COVERALL") != "" {
+		o := x.ob("cover", fmt.Sprintf("loop%d-back-p%d", li.ordinal, s.npath), "back edge reachable", nil)
+		s.cover(o)
 	}
 	if lc.hasMeas {
 		env := x.envFor(s, li)
@@ -852,7 +866,7 @@ func (x *Exec) doReturn(s *State, r *ssa.Return) {
 	bindResults(env, sig, results)
 	if x.con != nil {
 		for i, c := range x.con.Ensures {
-			t := env.evalBool(c.Expr)
+			t := env.checkTerm(c)
 			o := x.ob("post", clauseName(c, i), c.Src, r)
 			s.check(o, t)
 		}
@@ -884,4 +898,11 @@ func bindResults(env *Env, sig *types.Signature, results []Value) {
 func isErrorType(t types.Type) bool {
 	n, ok := t.(*types.Named)
 	return ok && n.Obj().Pkg() == nil && n.Obj().Name() == "error"
+}
+
+func funcShort2(x *Exec) string {
+	if x.fn != nil {
+		return funcShort(x.fn)
+	}
+	return x.con.Name
 }
